@@ -47,6 +47,8 @@ def main():
         for c in RELATED[prop] + [x for x in meta.get("detected_by_quick_checks", []) if x not in RELATED[prop]]:
             row[c] = run(s, c)
             print(s, c, row[c], flush=True)
+            if row[c] == "detected" and os.environ.get("SEED_MATRIX_FIRST"):
+                break          # SEED_MATRIX_FIRST=1: own property first, stop at the first check that detects the change
         mat[s] = row
         meta["detected_by_quick_checks"] = sorted(c for c, r in row.items() if r == "detected")
         meta["missed_by_quick_checks"] = sorted(c for c, r in row.items() if r == "missed")
